@@ -120,7 +120,7 @@ type liveConn struct {
 	Total   int   `json:"total"`   // bytes client -> server
 	Back    int   `json:"back"`    // bytes server -> client
 	Chunks  []int `json:"chunks"`  // client write sizes (cycled)
-	APIs    []int `json:"apis"`    // writer API per write (cycled): 0 Malloc+Flush 1 Write 2 WriteBinary 3 WriteString 4 mixed+one Flush
+	APIs    []int `json:"apis"`    // writer API per write (cycled): 0 Malloc+Flush 1 Write 2 WriteBinary 3 WriteString 4 mixed+one Flush 5 many 4097-byte WriteBinary pieces + one Flush
 	Reads   []int `json:"reads"`   // reader request sizes (cycled)
 	ReadOps []int `json:"readops"` // 0 Next 1 Peek+Skip 2 ReadBinary 3 Slice 4 Read 5 ReadString
 	SndBuf  int   `json:"sndbuf"`
@@ -149,7 +149,7 @@ func genLiveScn(t *rapid.T, big bool) liveScn {
 		c.Back = rapid.OneOf(rapid.Just(0), rapid.IntRange(1, 2000), rapid.IntRange(1, maxTotal/4)).Draw(t, "back")
 		for j, n := 0, rapid.IntRange(1, 5).Draw(t, "nchunks"); j < n; j++ {
 			c.Chunks = append(c.Chunks, rapid.OneOf(rapid.IntRange(1, 100), rapid.IntRange(1, 9000), rapid.IntRange(4000, 300000), rapid.SampledFrom([]int{4095, 4096, 4097, 8192})).Draw(t, "chunk"))
-			c.APIs = append(c.APIs, rapid.IntRange(0, 4).Draw(t, "api"))
+			c.APIs = append(c.APIs, rapid.IntRange(0, 5).Draw(t, "api"))
 		}
 		for j, n := 0, rapid.IntRange(1, 5).Draw(t, "nreads"); j < n; j++ {
 			c.Reads = append(c.Reads, rapid.OneOf(rapid.IntRange(1, 100), rapid.IntRange(1, 9000), rapid.IntRange(4000, 100000)).Draw(t, "read"))
@@ -290,6 +290,18 @@ func writeStream(conn Connection, base, total int, chunks, apis []int) error {
 						err = w.Flush()
 					}
 				}
+			}
+		case 5:
+			// many zero-copy pieces, one Flush (more nodes than the iovec barrier holds when k is large)
+			for off := 0; off < k && err == nil; off += 4097 {
+				end := off + 4097
+				if end > k {
+					end = k
+				}
+				_, err = w.WriteBinary(data[off:end:end])
+			}
+			if err == nil {
+				err = w.Flush()
 			}
 		default:
 			var p []byte
